@@ -284,7 +284,8 @@ func c15Build(sh *c15Shape, want gen.T, r *rt.Rand) (*gen.Node, bool) {
 func c15Lit(t gen.T, r *rt.Rand) *gen.Node {
 	switch t {
 	case gen.TS:
-		return gen.Str([]string{"a", "b", "k1", "", "x y"}[r.Intn(5)])
+		// also literals with bytes a printer might want to escape (the language has no escapes)
+		return gen.Str([]string{"a", "b", "k1", "", "x y", "a\\b", "^k\\d+$", "t\tab", "caf\xc3\xa9", "\xff\xfe", "say \"hi\"", "100%", "\\"}[r.Intn(13)])
 	case gen.TN:
 		if r.Chance(1, 4) {
 			return gen.Float([]string{"0.5", "1.5", "2.0"}[r.Intn(3)])
